@@ -46,6 +46,8 @@ def hx(s):
 
 
 def main():
+    os.environ.setdefault('ASAN_OPTIONS', 'detect_leaks=0')       # module definitions are one-time allocations by design: a leak report at exit is not a crash
+
     ck = vlib.Check('C20')
     ck.coq()
     b = ck.build()
@@ -119,7 +121,7 @@ def main():
                     ck.dist('fptrs:%s' % tk)
                     rp = {'kind': 'spec', 'cmd': 'querytool fptrs <plain.in or -> <module.in> %d' % nptr, 'files_hex': {os.path.basename(f): open(f, 'rb').read().hex() for f in [modf] + ([plain] if plain != '-' else [])},
                           'output': p.stdout[-800:]}
-                    if p.returncode not in (0, 1) or 'DONE' not in p.stdout:
+                    if p.returncode not in (0, 1) or 'DONE' not in p.stdout or (p.returncode == 1 and not any(l.startswith('BAD') for l in p.stdout.splitlines())):
                         ck.spec_failure('crash:fptrs', 'interrogate_wrapper_pointer sweep crashed (status %s): %s' % (p.returncode, p.stderr[-200:]), rp)
                     elif p.returncode == 1:
                         ck.spec_failure('neutral:interrogate_wrapper_pointer', [l for l in p.stdout.splitlines() if l.startswith('BAD')][0][4:], rp)
